@@ -55,7 +55,7 @@ func concScenarios() []concScen {
 	return out
 }
 
-func concPlan(oracles []string, pbQuick, pbThorough int) func(thorough bool) []*Job {
+func concPlan(oracles []string, pbQuick, pbThorough int, post ...string) func(thorough bool) []*Job {
 	return func(thorough bool) []*Job {
 		var jobs []*Job
 		pb, budget := pbQuick, 60
@@ -63,7 +63,7 @@ func concPlan(oracles []string, pbQuick, pbThorough int) func(thorough bool) []*
 			pb, budget = pbThorough, 600
 		}
 		for _, s := range concScenarios() {
-			p := concParams{Label: s.label, Cfg: s.cfg, Setup: s.setup, Threads: s.threads, Oracles: oracles}
+			p := concParams{Label: s.label, Cfg: s.cfg, Setup: s.setup, Threads: s.threads, Oracles: oracles, Post: post}
 			npb := pb
 			if len(s.threads) > 2 && npb > 1 && !thorough {
 				npb = 1
@@ -77,5 +77,7 @@ func concPlan(oracles []string, pbQuick, pbThorough int) func(thorough bool) []*
 func init() {
 	plans["C05"] = concPlan([]string{"audit"}, 2, 3)
 	plans["C06"] = concPlan([]string{"ledger"}, 2, 3)
-	plans["C04"] = concPlan([]string{"bound"}, 2, 3)
+	// C04: after the race, three more inserts: a weight total that a lost update left too low (or too high)
+	// shows up as a cache that retains more than its maximum
+	plans["C04"] = concPlan([]string{"bound"}, 2, 3, "set 7", "set 8", "set 9")
 }
